@@ -31,14 +31,15 @@ class CsvProjectIo(ProjectIoInterface):
         -------
             :class:`Parameters
         """
-        # labels are text, whatever they look like ('1.10', 'true', 'none', ...)
+        # labels and expressions are text, whatever they look like ('1.10', 'true', 'none', '2', ...)
         header = pd.read_csv(file_name, skipinitialspace=True, sep=sep, nrows=0).columns
         label_columns = [column for column in header if column.lower() == "label"]
+        text_columns = [column for column in header if column.lower() in ("label", "expression", "expr")]
         df = pd.read_csv(
             file_name,
             skipinitialspace=True,
             sep=sep,
-            dtype={column: str for column in label_columns},
+            dtype={column: str for column in text_columns},
             keep_default_na=False,
             na_values={
                 column: ["", "None", "none", "nan", "NaN"]
